@@ -28,6 +28,13 @@ def run(chk):
                     prov = rc.PROVIDERS[k % 3]
                     k += 1
                     cases.append(rc.graph_case(3, edges, prov, k % 4 != 0, fail=(ff, ph), history="c18"))
+    # main models loaded from a string (GlobalRepo providers, global repository): earlier string model, failing one, repair
+    for edges in ([[], [(0, 1)], [(0, 1), (1, 0)]] if not chk.thorough else list(rc.all_graphs(2))):
+        for ph in ("syn", "unres", "obj", "mp"):
+            for prov in ("plain_grepo", "fqn_grepo"):
+                cases.append(rc.str_case(2, edges, prov, True, ph))
+                if chk.thorough:
+                    cases.append(rc.str_case(2, edges, prov, False, ph))
     n = 1200 if chk.thorough else 140
     for i in range(n):
         r = chk.rng.split(i)
